@@ -65,6 +65,24 @@ func addTxnVal(st *Stack, k byte, payload byte, withLog bool) error {
 	})
 }
 
+// rangeTxnVal: as addTxnVal, but the table was prepared for the update indices
+// [lo, lo+1] (its records carry lo+1) whatever the stack says by now.
+func rangeTxnVal(st *Stack, k byte, payload byte, lo uint64) error {
+	hs := hsOf(st.cfg)
+	return st.Add(func(w *Writer) error {
+		w.SetLimits(lo, lo+1)
+		pv := hashWith(hs, k, 1)
+		pv[3] = payload
+		if err := w.AddRef(&RefRecord{RefName: "p" + string([]byte{'0' + k}), UpdateIndex: lo + 1, Value: pv}); err != nil {
+			return err
+		}
+		if err := w.AddRef(&RefRecord{RefName: "s", UpdateIndex: lo + 1, Value: hashWith(hs, k, 2)}); err != nil {
+			return err
+		}
+		return w.AddLog(&LogRecord{RefName: "s", UpdateIndex: lo + 1, Time: uint64(k), New: hashWith(hs, k, 2), Old: hashWith(hs, 0, 0), Message: "m\n"})
+	})
+}
+
 // seedStack creates the initial stack of n tables through the real API.
 func seedStack(dir string, cfg Config, n int) {
 	st := mustOpen(dir, cfg, "seed-open")
@@ -171,12 +189,13 @@ const (
 	opClose
 	opOpenAdd // the handle is opened inside the process, i.e. possibly after others committed
 	opCompactLastTwo
-	opTwoTables // one Addition with two tables (private refs p<k> and t<k>), committed together
-	opEmptyAdd  // a transaction without records: succeeds without creating a table
+	opTwoTables     // one Addition with two tables (private refs p<k> and t<k>), committed together
+	opEmptyAdd      // a transaction without records: succeeds without creating a table
+	opPreparedRange // a table prepared for the update indices [next, next+1] as the handle saw them at first, submitted unchanged and retried once, unchanged, after a lock failure
 	nOps
 )
 
-var opNames = []string{"Add", "AddAuto", "CompactAll", "CompactFirstTwo", "Reload", "Clean", "Close", "OpenAdd", "CompactLastTwo", "TwoTables", "EmptyAdd"}
+var opNames = []string{"Add", "AddAuto", "CompactAll", "CompactFirstTwo", "Reload", "Clean", "Close", "OpenAdd", "CompactLastTwo", "TwoTables", "EmptyAdd", "PreparedRange"}
 
 type procState struct {
 	id        byte
@@ -219,6 +238,14 @@ func runOp(p *procState) {
 		p.err = twoTableTxn(p.st, "p"+string([]byte{'0' + p.id}), "t"+string([]byte{'0' + p.id}))
 	case opEmptyAdd:
 		p.err = p.st.Add(func(w *Writer) error { return nil })
+	case opPreparedRange:
+		lo := p.st.NextUpdateIndex()
+		for try := 0; try < 2; try++ {
+			p.err = rangeTxnVal(p.st, p.id, p.payload, lo)
+			if p.err != ErrLockFailure {
+				break
+			}
+		}
 	case opReload:
 		p.err = p.st.reload(true)
 	case opClean:
@@ -228,7 +255,9 @@ func runOp(p *procState) {
 	}
 }
 
-func isAdder(op int) bool { return op == opAdd || op == opAddAuto || op == opOpenAdd || op == opTwoTables }
+func isAdder(op int) bool {
+	return op == opAdd || op == opAddAuto || op == opOpenAdd || op == opTwoTables || op == opPreparedRange
+}
 
 func sortedKeysOf(m map[string]byte) string {
 	var ks []string
@@ -396,11 +425,13 @@ var quickPairs = [][]int{
 	{opCompactLastTwo, opCompactAll},
 	{opTwoTables, opOpenAdd},
 	{opEmptyAdd, opCompactAll},
+	{opCompactFirstTwo, opClose},
+	{opPreparedRange, opAdd},
 }
 
 // pickPair returns an operation pair and the context bound to explore it with:
 // quick: the listed pairs with <= 2 preemptions; thorough: the listed pairs with
-// <= 3 preemptions and every pair of the 11 operations with <= 2.
+// <= 3 preemptions and every pair of the 12 operations with <= 2.
 func pickPair(extraPre int) ([]int, int) {
 	if VerifTier() == 0 {
 		return quickPairs[VerifChoose(len(quickPairs))], 2 + extraPre
@@ -412,7 +443,7 @@ func pickPair(extraPre int) ([]int, int) {
 }
 
 // Harness_C04_pairs: two processes, one operation each: no lost, altered or phantom update; Add succeeds iff committed; only lock failures.
-// bounds: 2 processes (own handles, opened before either runs); operation pairs: Add/Add, CompactAll/Add, CompactAll/Add+auto-compaction, compactRange(0,1)/CompactAll, Add/Clean, CompactAll/reload, Add/Close, Add/open+Add, open+Add/open+Add, CompactAll/open+Add, compactRange(top two)/CompactAll (open+Add: the handle is opened inside the process, so it may be fresh or stale) two-table Addition/open+Add, empty Add/CompactAll (thorough: all 121 pairs of the 11 operations); transaction payload byte arbitrary (symbolic); initial stack of 3 tables; every schedule with <= 2 preemptions at visible filesystem steps (thorough: the listed pairs with <= 3, all 121 pairs with <= 2); sha1
+// bounds: 2 processes (own handles, opened before either runs); operation pairs: Add/Add, CompactAll/Add, CompactAll/Add+auto-compaction, compactRange(0,1)/CompactAll, Add/Clean, CompactAll/reload, Add/Close, Add/open+Add, open+Add/open+Add, CompactAll/open+Add, compactRange(top two)/CompactAll (open+Add: the handle is opened inside the process, so it may be fresh or stale) two-table Addition/open+Add, empty Add/CompactAll, compactRange(0,1)/Close, prepared [next,next+1] table with one unchanged retry/Add (thorough: all 144 pairs of the 12 operations); transaction payload byte arbitrary (symbolic); initial stack of 3 tables; every schedule with <= 2 preemptions at visible filesystem steps (thorough: the listed pairs with <= 3, all 144 pairs with <= 2); sha1
 // covers: done
 func Harness_C04_pairs() {
 	ops, pre := pickPair(0)
@@ -518,7 +549,7 @@ const (
 )
 
 // Harness_C06_crash: a process abandoned before any of its filesystem steps leaves the previous or the next committed state, and the directory still opens.
-// bounds: 1 process running Add / Add+auto-compaction / two-table Addition+Commit / CompactAll / CompactAll with expiry / Clean / Close on a stack of 1..3 tables; crash immediately before every filesystem step (visible or not), or no crash; then a second process reads, and (thorough) adds
+// bounds: 1 process running Add / Add+auto-compaction / two-table Addition+Commit / CompactAll / CompactAll with expiry / Clean / Close on a stack of 1..3 tables (Clean and Close also on a handle that went stale because another process compacted the two lowest of 3 tables); crash immediately before every filesystem step (visible or not), or no crash; then a second process reads, and (thorough) adds
 // covers: crashed, completed
 func Harness_C06_crash() {
 	cfg := stackCfg(0)
@@ -531,6 +562,20 @@ func Harness_C06_crash() {
 	VerifAs(0)
 	if st == nil {
 		return
+	}
+	stale := false
+	if n == 3 && (op == crClose || op == crClean) && VerifChoose(2) == 1 {
+		// the handle went stale: another process compacted the two lowest tables meanwhile
+		VerifAs(3)
+		other := mustOpen(dir, cfg, "open-other")
+		if other == nil {
+			return
+		}
+		ok, err := other.compactRange(0, 1, nil)
+		VerifAssert(ok && err == nil, "other-compaction")
+		other.Close()
+		VerifAs(0)
+		stale = true
 	}
 	var opErr error
 	returned := false
@@ -558,7 +603,7 @@ func Harness_C06_crash() {
 	crashed := VerifCrashed()
 	VerifAssert(crashed != returned, "crash-bookkeeping")
 	if !crashed {
-		VerifAssert(opErr == nil, "operation-failed-without-interference")
+		VerifAssert(opErr == nil || (stale && opErr == ErrLockFailure), "operation-failed-without-interference")
 	}
 	VerifAs(2)
 	fin, err := NewStack(dir, cfg)
@@ -943,10 +988,86 @@ func Harness_C12_api() {
 	VerifAssert(!specNameConflicts(names), "live-refs-conflict")
 }
 
+// Harness_C12_batch: an Addition used as a batch - tables are added one by one, a refused table is skipped and the rest is committed - leaves a conflict-free live set that holds exactly the accepted tables.
+// bounds: sequential: a first Add of one name, then one Addition of two single-ref tables (names from the menu {a, a/b, a/b/c, a/c, ab, b}, the first an addition or a deletion); a table refused by Addition.Add is dropped by the caller, the others are committed; name checking on; the directory is then read by a second handle
+// covers: refused-then-committed, all-accepted
+func Harness_C12_batch() {
+	cfg := stackCfg(0)
+	dir := VerifTempDir()
+	st := mustOpen(dir, cfg, "open")
+	if st == nil {
+		return
+	}
+	first := nameMenu[VerifChoose(6)]
+	err := st.Add(func(w *Writer) error {
+		ui := st.NextUpdateIndex()
+		w.SetLimits(ui, ui)
+		return w.AddRef(&RefRecord{RefName: first, UpdateIndex: ui, Value: hashWith(20, 1, 1)})
+	})
+	VerifAssert(err == nil, "first-add")
+	n1, n2 := nameMenu[VerifChoose(6)], nameMenu[VerifChoose(6)]
+	del1 := VerifChoose(2) == 1
+	if n1 == n2 {
+		return
+	}
+	tr, err := st.NewAddition()
+	VerifAssert(err == nil, "new-addition")
+	if err != nil {
+		return
+	}
+	live := map[string]bool{first: true}
+	refused := 0
+	for i, nm := range []string{n1, n2} {
+		nm := nm
+		ui := tr.nextUpdateIndex
+		r := &RefRecord{RefName: nm, UpdateIndex: ui}
+		del := i == 0 && del1
+		if !del {
+			r.Value = hashWith(20, byte(i+2), 3)
+		}
+		err := tr.Add(func(w *Writer) error {
+			w.SetLimits(ui, ui)
+			return w.AddRef(r)
+		})
+		if err != nil {
+			refused++
+			continue
+		}
+		if del {
+			delete(live, nm)
+		} else {
+			live[nm] = true
+		}
+	}
+	err = tr.Commit()
+	tr.Close()
+	VerifAssert(err == nil, "batch-commit")
+	if refused > 0 {
+		VerifCover("refused-then-committed")
+	} else {
+		VerifCover("all-accepted")
+	}
+	fin := mustOpen(dir, cfg, "final-open")
+	if fin == nil {
+		return
+	}
+	got := snapshot(fin, "final").refs
+	var names []string
+	for n := range got {
+		names = append(names, n)
+	}
+	VerifAssert(!specNameConflicts(names), "live-refs-conflict")
+	VerifAssert(len(got) == len(live), "batch-live-set-size")
+	for n := range live {
+		_, ok := got[n]
+		VerifAssert(ok, "batch-accepted-ref-missing")
+	}
+}
+
 // ---------- C16: sequential failure paths ----------
 
 // Harness_C16_failures: failed and rejected operations, and Close/Clean on any stack, leave nothing behind and never remove a listed table.
-// bounds: sequential: stack of 0..2 tables; one of: Add whose write function fails, Add with limits below the stack (rejected), stale Add (lock failure), empty Add, Clean, Close, CompactAll, a two-table Addition whose second table is rejected and which is then closed (name checking on and off), a compaction whose result is empty; then the directory must hold exactly tables.list and the listed tables; also Clean/Close after another process was abandoned in the middle of an Add (leftover temporary and lock files)
+// bounds: sequential: stack of 0..2 tables; one of: Add whose write function fails, Add with limits below the stack (rejected), stale Add (lock failure), empty Add, Clean, Close, CompactAll, a two-table Addition whose second table is rejected and which is then closed (name checking on and off), a compaction whose result is empty, a compaction and an Add by a handle whose Config the table writer refuses; then the directory must hold exactly tables.list and the listed tables; also Clean/Close after another process was abandoned in the middle of an Add (leftover temporary and lock files)
 // covers: done
 func Harness_C16_failures() {
 	cfg := stackCfg(0)
@@ -959,7 +1080,30 @@ func Harness_C16_failures() {
 		return
 	}
 	leftover := false
-	switch VerifChoose(10) {
+	switch VerifChoose(11) {
+	case 10:
+		// a handle whose Config the table writer refuses (block size beyond 24 bits): its compaction and its Add fail, and leave nothing behind
+		bad := cfg
+		bad.BlockSize = 1 << 24
+		st3, err := NewStack(dir, bad)
+		VerifAssert(err == nil, "open-bad-config")
+		if err != nil {
+			return
+		}
+		if VerifChoose(2) == 0 {
+			err = st3.CompactAll(nil)
+			if n == 2 {
+				VerifAssert(err != nil, "compaction-with-unwritable-config-succeeded")
+			}
+		} else {
+			err = st3.Add(func(w *Writer) error {
+				ui := st3.NextUpdateIndex()
+				w.SetLimits(ui, ui)
+				return w.AddRef(&RefRecord{RefName: "x", UpdateIndex: ui, Value: hashWith(20, 1, 1)})
+			})
+			VerifAssert(err != nil, "add-with-unwritable-config-succeeded")
+		}
+		st3.Close()
 	case 9:
 		// a compaction whose result is empty (a ref created and then deleted): no table, no temporary file
 		VerifAssert(st.Add(func(w *Writer) error {
